@@ -247,6 +247,26 @@ def _partition_parser(ck, R1, pq):
     return ("::", ":", "#")
 
 
+def check_cluster_name_validated(ck, R2, shape):
+    """The cluster name is spliced in front of `module:function#version` with the cluster delimiter; the parser can
+    only get it back if it contains none of the characters that delimit the later parts.  The configuration
+    refuses such names where clusters are created."""
+    fa = FA(ck, "configuration.FunctionCluster.__init__")
+    d_cluster, d_module, d_version = shape if shape is not None else ("::", ":", "#")
+    need = {d_module[0], d_version}
+    ok = False
+    for r in fa.stmts(ast.Raise):
+        g = fa.enclosing(r, ast.If)
+        while g is not None and not ok:
+            if need <= set("".join(A.strings_in(g.test))) and "name" in A.norm(g.test):
+                ok = True
+            g = fa.enclosing(g, ast.If)
+    ck.ob(R2, fa.key(None, "cluster-name-validated"), ok,
+          "a cluster name containing %s is refused" % sorted(need) if ok else
+          "cluster names are not checked against the delimiters %s of qualified names: a cluster called 'team#1' or 'a:' is accepted, results are "
+          "stored under it, and every later read of those entries fails to parse the name (or parses it into other parts)" % sorted(need), fa.where())
+
+
 def check_stub_from_stored_state(ck, R3):
     """The external stand-in for a function that cannot be resolved at the stored version is built
     from what was stored (the parsed name and the decoder's arguments) and from nothing that the
@@ -368,6 +388,7 @@ def check(ck):
     from .c05 import check_escape_inverse, check_strip_is_not_prefix_removal
     ck.run(check_escape_inverse, ck, R2)
     ck.run(check_strip_is_not_prefix_removal, ck, R2)
+    ck.run(check_cluster_name_validated, ck, R2, shape)
     from .c11 import check_reference_resolved_afresh
     ck.run(check_reference_resolved_afresh, ck, R3)
     ck.run(check_stub_from_stored_state, ck, R3)
